@@ -24,20 +24,38 @@ def _wf(nm, obj):
 
 
 def make_loopspecs(case):
+    """sidecar loop contracts of one decorator class.  They are attached by the *shape* of the loop
+    (kind of statement), not by ordinal or line: LRU's eviction loop is its only `while`, the
+    compaction loop its only `for`; LFU has one `for`, MRU one `while`.  A second loop of the same
+    shape in the same function makes the association ambiguous -> unsupported (undecided)."""
     fq = '%s.wrapper' % case.qual
-    specs = {}
+    table = {}
     if case.policy == 'lfu':
-        specs[(fq, 0)] = LoopSpec(lambda ctx: lfu_invariant(case, ctx), lambda I, h, entry: lfu_havoc(case, I, h, entry),
-                                  'lfu-eviction')
+        table['For'] = LoopSpec(lambda ctx: lfu_invariant(case, ctx), lambda I, h, entry: lfu_havoc(case, I, h, entry),
+                                'lfu-eviction')
     if case.policy == 'lru':
-        specs[(fq, 0)] = LoopSpec(lambda ctx: lru_invariant(case, ctx), lambda I, h, entry: lru_havoc(case, I, h, entry),
+        table['While'] = LoopSpec(lambda ctx: lru_invariant(case, ctx), lambda I, h, entry: lru_havoc(case, I, h, entry),
                                   'lru-eviction')
-        specs[(fq, 1)] = LoopSpec(lambda ctx: compact_invariant(case, ctx),
-                                  lambda I, h, entry: compact_havoc(case, I, h, entry), 'lru-compaction')
+        table['For'] = LoopSpec(lambda ctx: compact_invariant(case, ctx),
+                                lambda I, h, entry: compact_havoc(case, I, h, entry), 'lru-compaction')
     if case.policy == 'mru':
-        specs[(fq, 0)] = LoopSpec(lambda ctx: mru_invariant(case, ctx), lambda I, h, entry: mru_havoc(case, I, h, entry),
+        table['While'] = LoopSpec(lambda ctx: mru_invariant(case, ctx), lambda I, h, entry: mru_havoc(case, I, h, entry),
                                   'mru-eviction')
-    return specs
+    seen = {}
+
+    def resolver(funcqual, node):
+        if funcqual != fq:
+            return None
+        kind = node.__class__.__name__
+        spec = table.get(kind)
+        if spec is None:
+            return None
+        prev = seen.setdefault(kind, node)
+        if prev is not node and getattr(prev, 'lineno', None) != getattr(node, 'lineno', None):
+            raise Unsupported('two %s loops in %s: loop contract %r is ambiguous' % (kind, fq, spec.name), node)
+        return spec
+    case.I.loopspec_resolver = resolver
+    return {}
 
 
 # ---------------------------------------------------------------------------------------------
@@ -182,7 +200,10 @@ def lru_havoc(case, I, h, entry):
 
 
 def lru_invariant(case, ctx):
-    q0 = ctx.entry.get(case.queue_ref)
+    """stated relative to the queue Q0 of the wrapper's pre-state: the loop works on QA = Q0 ++ [key0]
+    (the use of the current key has just been recorded) and has popped QA[Q0.lo .. q.lo) from the left"""
+    pre = ctx.fnpre          # Snap at function entry
+    Q0 = pre.q
     q = ctx.st.get(case.queue_ref)
     R = ctx.st.get(case.counter_ref)
     mem = ctx.st.get(case.cache_ref)
@@ -190,19 +211,34 @@ def lru_invariant(case, ctx):
     kv = ctx.st.lookup(ctx.eid, var)
     if not isinstance(kv, Opaque):
         raise Unsupported('LRU loop variable %s is %r' % (var, kv))
-    key = kv.term
+    key = kv.term            # the entry popped most recently (candidate victim)
+    key0 = _call_key(case)   # the key of this call
     x = x_()
     j = j_()
     rv = z3.If(R.dom[x], R.val[x], 0)
-    pre = ctx.fnpre          # Snap at function entry
-    out = [('queue.array', z3.And(q.hi == q0.hi, q0.lo <= q.lo, q.lo <= q.hi,
-                                  forall([j], z3.Implies(z3.And(q.lo <= j, j < q.hi), q.arr[j] == q0.arr[j]),
+    qa = lambda t: z3.If(t == Q0.hi, key0, Q0.arr[t])
+    out = [('queue.array', z3.And(q.hi == Q0.hi + 1, Q0.lo <= q.lo - 1, q.lo <= q.hi,
+                                  forall([j], z3.Implies(z3.And(q.lo <= j, j < q.hi), q.arr[j] == qa(j)),
                                          patterns=[q.arr[j]]))),
-           ('queue.last', forall([x], z3.Implies(q.cnt[x] >= 1, q.last[x] == q0.last[x]), patterns=[q.cnt[x]])),
+           ('queue.last', forall([x], z3.Implies(q.cnt[x] >= 1, q.last[x] == z3.If(x == key0, Q0.hi, Q0.last[x])),
+                                 patterns=[q.cnt[x]])),
            ('refcount', forall([x], rv == q.cnt[x], patterns=[q.cnt[x]])),
            ('resident', forall([x], z3.Implies(q.cnt[x] >= 1, mem.dom[x]), patterns=[q.cnt[x]])),
            ('victim.resident_or_absent', z3.And(Hashable(key))),
-           ('victim.was_queued', z3.And(q0.arr[q.lo - 1] == key, q.lo - 1 >= pre.q.lo)),
+           ('victim.was_queued', qa(q.lo - 1) == key),
+           # C06 lemmas, phrased over keys (trigger: Q0.cnt[y]) so that the exit reasoning is one
+           # instantiation each.  p = q.lo - 1 is the position popped most recently.
+           # (L1) if no occurrence of the candidate remains, the popped one was its last occurrence
+           ('victim.last', z3.Or(key == key0, q.cnt[key] >= 1, Q0.last[key] == q.lo - 1)),
+           # (L2) everything popped before p was not a last occurrence: every queued key still has its
+           #      most recent use at or after p
+           ('older', forall([x], z3.Implies(z3.And(Q0.cnt[x] >= 1, x != key0), Q0.last[x] >= q.lo - 1),
+                            patterns=[Q0.cnt[x]])),
+           # (L3) the use just recorded for the current call is still queued unless it is the candidate
+           ('current.queued', z3.Implies(q.lo - 1 < Q0.hi, q.cnt[key0] >= 1)),
+           # (L4) a key whose most recent use lies in the remaining window is still counted
+           ('remaining.counted', forall([x], z3.Implies(z3.And(Q0.cnt[x] >= 1, x != key0, Q0.last[x] >= q.lo),
+                                                        q.cnt[x] >= 1), patterns=[Q0.cnt[x]])),
            ]
     se = case.sentinel_term()
     if se is not None:
@@ -232,7 +268,11 @@ def compact_invariant(case, ctx):
         raise Unsupported('no sentinel object found for the compaction loop')
     x = x_()
     j = j_()
+    j2 = z3.Const('j2!q', INT)
     s = q0.lo            # slot of the sentinel
+    Q0 = ctx.fnpre.q
+    key0 = _call_key(case)
+    rank = lambda t: z3.If(t == key0, Q0.hi, Q0.last[t])
     out = [('window', z3.And(q.lo <= s, s < q.hi, q.hi <= q0.hi, q.arr[s] == se)),
            ('old.part', forall([j], z3.Implies(z3.And(s < j, j < q.hi),
                                                z3.And(q.arr[j] == q0.arr[j], q.arr[j] != se, mem.dom[q.arr[j]])),
@@ -247,5 +287,24 @@ def compact_invariant(case, ctx):
                                patterns=[R.dom[x]])),
            ('refcount.size', R.size == s - q.lo),
            ('sentinel.once', q.cnt[se] == 1),
+           # C06: the new part lists, left to right, the keys whose last occurrence (in the queue at loop
+           # entry) has been processed, ordered by that last occurrence; the first key processed (the most
+           # recent use) sits right next to the sentinel
+           # rank(x): position of the most recent use of x, in terms of the wrapper's pre-state queue Q0
+           # (indices never shift in the LRU queue) with the current call's key ranked last
+           ('entry.rank', forall([x], z3.Implies(z3.And(q0.cnt[x] >= 1, x != se), q0.last[x] == rank(x)),
+                                 patterns=[q0.cnt[x]])),
+           ('order.processed', forall([j], z3.Implies(z3.And(q.lo <= j, j < s), rank(q.arr[j]) >= q.hi),
+                                      patterns=[q.arr[j]])),
+           ('order.monotone', forall([j, j2], z3.Implies(z3.And(q.lo <= j, j < j2, j2 < s),
+                                                         rank(q.arr[j]) < rank(q.arr[j2])),
+                                     patterns=[z3.MultiPattern(q.arr[j], q.arr[j2])])),
+           ('order.complete', forall([x], z3.Implies(z3.And(q0.cnt[x] >= 1, x != se, rank(x) >= q.hi), R.dom[x]),
+                                     patterns=[q0.cnt[x]])),
+           # no key vanishes from the queue during compaction (it is in the unprocessed part or in the new part)
+           ('keys.kept', forall([x], z3.Implies(z3.And(q0.cnt[x] >= 1, x != se), q.cnt[x] >= 1),
+                                patterns=[q0.cnt[x]])),
+           ('order.most_recent', z3.And(z3.Implies(q.lo < s, q.arr[s - 1] == q0.arr[q0.hi - 1]),
+                                        z3.Implies(q.lo == s, q.hi == q0.hi))),
            ]
     return out
